@@ -109,8 +109,8 @@ int main(int argc, char **argv)
     setenv("LLVM_DISABLE_SYMBOLIZATION", "1", 1);
     struct rlimit nocore = {0, 0};
     setrlimit(RLIMIT_CORE, &nocore);
-    // terms with <= 1 operation.  quick: 5-leaf alphabet, double x all 8 configurations, float / long double x
-    // opt_level {0,3} x cse {off,on}.  thorough: 10-leaf alphabet x all 24 configurations.
+    // terms with <= 1 operation: double x all 8 configurations, float / long double x opt_level {0,3} x cse {off,on};
+    // quick: 5-leaf alphabet, thorough: 10-leaf alphabet.
     PoolCfg pc = pool_cfg(thorough ? 1 : 0);
     pc.maxn = 1;
     TermPool P;
@@ -119,32 +119,32 @@ int main(int argc, char **argv)
     std::vector<int> all8 = {0, 1, 2, 3, 4, 5, 6, 7}, four = {0, 1, 6, 7};
     EvalChecks<TD>::run_terms(P, "terms:double", all8, none, {});
     phase_log("C14", "terms:double n<=1");
-    EvalChecks<TF>::run_terms(P, "terms:float", thorough ? all8 : four, none, {});
+    EvalChecks<TF>::run_terms(P, "terms:float", four, none, {});
 #ifdef SYMENGINE_HAVE_LLVM_LONG_DOUBLE
-    EvalChecks<TL>::run_terms(P, "terms:longdouble", thorough ? all8 : four, none, {});
+    EvalChecks<TL>::run_terms(P, "terms:longdouble", four, none, {});
 #endif
     phase_log("C14", "terms:float,longdouble n<=1");
     std::string deepbound;
     // tuples
-    EvalChecks<TD>::run_tuples("tuples:double", thorough ? 3 : 2, thorough ? all8 : four);
+    EvalChecks<TD>::run_tuples("tuples:double", thorough ? 3 : 2, four);
     phase_log("C14", "tuples:double");
-    EvalChecks<TF>::run_tuples("tuples:float", thorough ? 2 : 1, thorough ? all8 : four);
+    EvalChecks<TF>::run_tuples("tuples:float", thorough ? 2 : 1, four);
 #ifdef SYMENGINE_HAVE_LLVM_LONG_DOUBLE
-    EvalChecks<TL>::run_tuples("tuples:longdouble", thorough ? 2 : 1, thorough ? all8 : four);
+    EvalChecks<TL>::run_tuples("tuples:longdouble", thorough ? 2 : 1, four);
 #endif
     phase_log("C14", "tuples:float,longdouble");
 
     if (thorough && !past_deadline()) {
         // level 2 over the small alphabet, default configuration (opt_level 3) with symbolic_cse off and on
-        PoolCfg p0 = pool_cfg(0);
+        PoolCfg p0 = pool_cfg(-2);
         p0.maxn = 1;
         TermPool P0;
         build_pool(P0, p0, "pool0");
         deep = P0.level_recipes(p0, 2);
-        EvalChecks<TD>::run_terms(P0, "terms2:double", {}, deep, {6, 7}, false);
+        EvalChecks<TD>::run_terms(P0, "terms2:double", {}, deep, {6}, false);
         phase_log("C14", "terms:double n=2");
         deepbound = "; plus all " + std::to_string(deep.size()) + " transitions into level 2 over " + std::to_string(p0.leavesV.size())
-                    + " value leaves for llvm-double at opt_level 3 with symbolic_cse off and on";
+                    + " value leaves for llvm-double in the default configuration (opt_level 3, symbolic_cse off)";
         R.counters["level2_recipes(transitions, not de-duplicated)"] = deep.size();
     }
     // histories: every type; depth 3 (thorough: depth 4 for double)
@@ -161,10 +161,10 @@ int main(int argc, char **argv)
     R.counters["pool_boolean_states"] = P.B.size();
     R.bound_completed = "terms: all expressions with <= 1 operation over " + std::to_string(pc.leavesV.size()) + " value + " + std::to_string(pc.leavesB.size())
                         + " boolean leaves (" + std::to_string(P.V.size() + P.B.size())
-                        + " states) x " + (thorough ? "{double,float,long double} x opt_level 0-3" : "{double x opt_level 0-3, float / long double x opt_level 0,3}")
+                        + " states) x {double x opt_level 0-3, float / long double x opt_level 0,3}"
                         + " x symbolic_cse on/off x dumps/loads x 3x3 grid" + deepbound
                         + "; tuples: all ordered tuples of <= " + (thorough ? "3 (double), 2 (float, long double)" : "2 (double), 1 (float, long double)")
-                        + " outputs from a 12-expression pool x 3 input vectors x " + (thorough ? "8 configurations" : "opt_level {0,3} x cse {off,on}")
+                        + " outputs from a 12-expression pool x 3 input vectors x opt_level {0,3} x cse {off,on}"
                         + "; histories: all sequences of <= " + (thorough ? "3 (double), 2 (float, long double)" : "2")
                         + " init calls from a menu of 10 (3 failing), one process per history";
     R.rule = "same typed term algebra, tuple pool and init menu as C13, compiled by the LLVM visitors; every compiled function is called on the grid x in "
